@@ -288,7 +288,7 @@ fn instr_part(ctx: &mut Ctx) {
     let (mut is, names) = new_iset();
     let cache = sorted_cache(&is);
     let judge = Judge { frame: true, reference: true };
-    let nseq = ctx.n(1500, 40000);
+    let nseq = ctx.n(5000, 150000);
     for j in 0..nseq as u64 {
         if !ctx.mine(j) {
             continue;
@@ -428,9 +428,7 @@ pub fn run(ctx: &mut Ctx) {
                 h.push(ops[(c % nops) as usize].clone());
                 c /= nops;
             }
-            if case % 256 == 0 {
-                ctx.rec.case_marker(case, "exhaustive graph history");
-            }
+            ctx.rec.case_marker_throttled(case, "exhaustive graph history", 256);
             run_hist(ctx, &h);
             if code == total / 3 && len == k {
                 ctx.rec.sample("exhaustive-history", &format!("{:?}", h));
@@ -439,7 +437,7 @@ pub fn run(ctx: &mut Ctx) {
     }
     ctx.rec.note("exhaustive_space", &space.to_string());
     // random histories on up to 12 slots
-    let nr = ctx.n(1500, 30000);
+    let nr = ctx.n(4000, 100000);
     for j in 0..nr as u64 {
         case += 1;
         if !ctx.mine(case) {
